@@ -20,7 +20,7 @@ fn read_field_any<const KF: usize>() {
     kani::cover!(true, "end reached");
 }
 
-// @ob id=to_entries known="w0: usize, w1: usize, w2: usize, first: u32" tier=quick unwind=8 stubs=fmt,vec timeout=1500 mem=20 bound="XRefStream::to_xref_entries: /W = three arbitrary usize, one /Index pair (first, count) with arbitrary u32 each, 6 arbitrary data bytes: value or error, object numbers first+i, never a panic"
+// @ob id=to_entries known="w0: usize, w1: usize, w2: usize, first: u32" tier=quick unwind=8 stubs=fmt,vec timeout=1500 mem=28 bound="XRefStream::to_xref_entries: /W = three arbitrary usize, one /Index pair (first, count) with arbitrary u32 each, 6 arbitrary data bytes: value or error, object numbers first+i, never a panic"
 fn to_entries<const KF: usize>() {
     let w: [usize; 3] = kani::any();
     let first: u32 = kani::any();
